@@ -17,6 +17,7 @@ class Term:
             c = ord(self.text)
             return self.text if 32 < c < 127 else '\\x%02X' % c
         if self.kind == 's': return self.text
+        if self.kind == 'k': return self.name if self.name else self.text
         return self.name if self.name else 'r_' + self.text
     def to_json(self): return {'kind': self.kind, 'text': self.text, 'prec': self.prec, 'assoc': self.assoc, 'name': self.name, 'typed': self.typed}
     @staticmethod
@@ -36,6 +37,7 @@ class Grammar:
         self.vtypes = list(vtypes) if vtypes else ['V'] * len(self.nts)   # value kind per nonterminal: 'V','W','I'
         self.note = note
         self.tvtype = 'V'     # value kind returned by typed-term functors
+        self.lexspec = None   # custom lexer script: ([term per byte], [length per byte]) or None
     # term indices: 0..T-1 user terms, T eof, T+1 error token
     @property
     def T(self): return len(self.terms)
@@ -65,15 +67,17 @@ class Grammar:
         return '; '.join(out)
     def to_json(self):
         return {'nts': self.nts, 'terms': [t.to_json() for t in self.terms], 'rules': [r.to_json() for r in self.rules],
-                'root': self.root, 'vtypes': self.vtypes, 'note': self.note, 'tvtype': self.tvtype}
+                'root': self.root, 'vtypes': self.vtypes, 'note': self.note, 'tvtype': self.tvtype, 'lexspec': self.lexspec}
     @staticmethod
     def from_json(d):
         g = Grammar(d['nts'], [Term.from_json(t) for t in d['terms']], [Rule.from_json(r) for r in d['rules']],
                     d.get('root', 0), d.get('vtypes'), d.get('note', ''))
         g.tvtype = d.get('tvtype', 'V')
+        g.lexspec = d.get('lexspec')
         return g
     def key(self):
         d = self.to_json(); d.pop('note', None)
+        if d.get('lexspec') is None: d.pop('lexspec', None)
         return hashlib.sha256(json.dumps(d, sort_keys=True).encode()).hexdigest()[:16]
 
 def simple(spec, root=None, **kw):
